@@ -65,7 +65,7 @@ def run(ctx):
     os.environ["VERIF_ROOT"] = verif.VERIF
     rc = verif.standard_check(ctx, SPEC)
     # kernel-map facts of the run -> evidence
-    ev = os.path.join(verif.VERIF, "evidence", ctx.pid + ".json")
+    ev = verif.evidence_path(ctx)
     if not ctx.replay and os.path.exists(ev):
         e = json.load(open(ev))
         for mf in glob.glob(os.path.join(ctx.work, "run", "*.meta.json")):
